@@ -714,6 +714,27 @@ mut('m57_id_fallback_again', 'C20',
      """        if self._id is _ID_FROM_XML or self._id is None:""", None))
 
 
+# ---- hostile IDs
+mut('m58_find_child_strips_ids', 'C01 C02 C03',
+    (UX, """            if child_id == id:""",
+     """            if child_id is not None and child_id.strip() == id.strip():""", None))
+mut('m59_find_child_case_insensitive', 'C01 C02',
+    (UX, """            if child_id == id:""",
+     """            if child_id is not None and child_id.lower() == id.lower():""", None))
+mut('m60_storyreplace_zero_removes_first', 'C05',
+    (MT, """        if len(self.stories) == 0:
+            raise MosMergeError(
+                f"{self.__class__.__name__} error in {self.message_id} - no stories to insert"
+            )
+        remove_node(parent=ro.base_tag, node=story)""",
+     """        remove_node(parent=ro.base_tag, node=story)
+        if len(self.stories) == 0:
+            ro.base_tag.insert(story_index + 1, story)
+            raise MosMergeError(
+                f"{self.__class__.__name__} error in {self.message_id} - no stories to insert"
+            )""", None))
+
+
 def main():
     os.makedirs(OUT, exist_ok=True)
     for fn in os.listdir(OUT):
